@@ -76,8 +76,10 @@ impl PluginOpts {
         o.yomigana = rng.chance(1, 2);
         o.mecab = rng.chance(2, 3);
         if rng.chance(1, 3) {
-            let re = rng.pick(&["[a-z]+[0-9]*", "[0-9a-z-]+", "[ア-ン]{2,}", "\\p{Han}+", "a?", "[0-9]*x?"]).to_string();
-            o.regex = Some((re, rng.chance(1, 2), *rng.pick(&[2usize, 4, 32])));
+            // (the alternations: only their first branch is anchored by the provider, a match of a later branch further
+            // right must be ignored; the largest maxLength must not overflow anything)
+            let re = rng.pick(&["[a-z]+[0-9]*", "[0-9a-z-]+", "[ア-ン]{2,}", "\\p{Han}+", "a?", "[0-9]*x?", "[a-z]+[0-9]+|[0-9]+[a-z]+", "xyz|[0-9]+"]).to_string();
+            o.regex = Some((re, rng.chance(1, 2), *rng.pick(&[2usize, 4, 32, 32, 65535, usize::MAX])));
         }
         if path_rewrite {
             if rng.chance(1, 2) {
